@@ -148,7 +148,7 @@ Commit(t) ==
 \* is still performed against the commits recorded so far.
 CommitAt(t, ts) ==
     /\ Managed
-    /\ ts >= discardTs
+    /\ ts >= discardTs /\ ts >= hw     \* also not below a discard timestamp used before a restart
     /\ Active(t) /\ NoOpenIter(t)
     /\ IF txn[t].haswr = {}
        THEN /\ txn' = [txn EXCEPT ![t].st = "discarded"]
